@@ -1,7 +1,7 @@
 INIT Init
 NEXT Next
 CONSTANT CMax = 30
-CONSTANT Variant = "ok"
+CONSTANT Variant = "cast_range"
 INVARIANT KernelRefines
 INVARIANT DivRoundedRefines
 INVARIANT AddSubRefines
